@@ -362,7 +362,7 @@ def judge_one(site: Site, fa: T.List[str], pre: T.Dict[str, T.Any], post: T.Dict
                 f'`{shown}` after the kill exits {r.rc} (manual repair needed): {first}\n' + norm_msg(r.text[-1200:], site)), 'error', noop
     vals, ri = site.introspect(inproc)
     if vals is None:
-        first = norm_msg(' '.join(ri.text.strip().splitlines()[-2:]) or 'no output', site)
+        first = norm_msg(' '.join(ri.text.strip().splitlines()[-3:]) or 'no output', site)
         first = re.sub(r'^.*ERROR:\s*', '', first)
         return (f'introspect-fails/{slug(first, 50)}',
                 f'`{shown}` exits 0 but afterwards `meson introspect --buildoptions B` fails (rc {ri.rc}): {first}'), 'introspect-fails', noop
